@@ -669,6 +669,11 @@ func (env *TEnv) trCall(x *ECall) (TV, error) {
 			return TV{}, err
 		}
 		return TV{S("select", env.visitedOf(env.cur), k.T), tBool}, nil
+	case "rangepos": // rangepos(): the byte position of the iterator of this range-over-string loop
+		if env.visitedOf == nil {
+			return TV{}, fmt.Errorf("rangepos() outside a range-over-string loop clause")
+		}
+		return TV{env.visitedOf(env.cur), tInt}, nil
 	case "loopentry": // loopentry(expr): expr in the heap as it was when the loop was entered
 		if env.loopEntry == nil {
 			return TV{}, fmt.Errorf("loopentry() outside a loop clause")
